@@ -2,10 +2,11 @@ SPECIFICATION Spec
 CONSTANTS
   MaxFields = 3
   EmitCases = TRUE
-  Values = {"A", "M", "X", "U", "T", "S"}
+  Values = {"A", "M", "X", "U", "T", "S", "E"}
 INVARIANTS
   P_C06_TraceEq
   P_C06_Closing
   P_C06_KnownTight
+  P_C06_FailStop
   Emit
 CHECK_DEADLOCK FALSE
